@@ -117,7 +117,12 @@ def all_columns_sum(run, seed, models):
     n = 0
     for name in models:
         try:
-            sm = get_model(name)
+            if name.startswith("user:"):
+                import check_C05
+
+                sm = check_C05.user_model(name)
+            else:
+                sm = get_model(name)
         except Exception as ex:
             continue
         alpha = list(sm.get_alphabet())
@@ -135,6 +140,10 @@ def all_columns_sum(run, seed, models):
         except Exception as ex:
             run.extra.setdefault("normalisation_unsupported", []).append(f"{name}:{ex!r}"[:120])
             continue
+        if "psmprobs" in lf.get_param_names():
+            # position-specific nucleotide probabilities: three different distributions
+            for pos, pr in (("0", (1, 2, 3, 4)), ("1", (2, 1, 1, 1)), ("2", (1, 1, 2, 2))):
+                lf.set_param_rule("psmprobs", position=pos, value={b: x / sum(pr) for b, x in zip("TCAG", pr)}, is_constant=True)
         for p in lf.get_param_names():
             if p in ("mprobs", "length", "psmprobs"):
                 continue
@@ -221,7 +230,7 @@ def check(run: Run):
             seen.add(rec["id"])
             ncols += check_config(run, rec)
             run.sample({"config": rec["id"], "newick": rec["newick"], "first_column": rec["cols"][0], "exact_likelihood": rec["lik"][0]}, limit=4)
-        models = ["JC69", "F81", "HKY85", "TN93", "GTR", "GN", "ssGN"]
+        models = ["JC69", "F81", "HKY85", "TN93", "GTR", "GN", "ssGN", "user:Codon:monomers", "user:Dinucleotide:monomer"]
         if run.tier == "thorough":
             models += ["MG94HKY", "GY94", "CNFGTR", "JTT92", "WG01", "H04G", "GNC"]
         else:
